@@ -57,6 +57,20 @@ static void build_world(File &f) {
     DataArray boo = b.createDataArray("boo", "t", DataType::Bool, NDSize({3}));
     DataArray empty = b.createDataArray("empty", "t", DataType::Double, NDSize({0}));
     DataArray empty2 = b.createDataArray("empty2", "t", DataType::Double, NDSize({0, 2}));
+    // names longer than any fixed-size buffer a lookup could use (127, 128, 129, 300, 1000 bytes): reached by index, by
+    // enumeration, by id and by find in most calls of the catalogue
+    {
+        Block lb = f.createBlock(std::string(300, 'B'), "t");
+        for (size_t n : {127, 128, 129, 300, 1000}) {
+            DataArray la = lb.createDataArray(std::string(n, 'a'), "t", DataType::Double, NDSize({1}));
+            la.appendSetDimension();
+            lb.createTag(std::string(n, 't'), "t", {0.0}).addReference(la);
+            lb.createSource(std::string(n, 's'), "t").createSource(std::string(n, 'c'), "t");
+        }
+        Section ls = f.createSection(std::string(129, 'S'), "t");
+        ls.createProperty(std::string(200, 'p'), Variant(1.0));
+        ls.createSection(std::string(128, 'x'), "t");
+    }
     // calibrated arrays: every typed read goes through the polynomial path
     DataArray cal = b.createDataArray("cal", "t", DataType::Double, NDSize({4}));
     cal.setData(std::vector<double>{1, 2, 3, 4}); cal.polynomCoefficients({1.0, 2.0}); cal.expansionOrigin(0.5);
@@ -227,6 +241,12 @@ static std::vector<Call> misuse() {
     add("Property edge cases", [](File &f) { Section s = f.getSection("meta"); for (auto &p : s.properties()) { vf::guarded([&] { p.values(); }); vf::guarded([&] { p.valueCount(); }); vf::guarded([&] { p.values({}); }); vf::guarded([&] { p.values({Variant()}); }); vf::guarded([&] { p.values(std::vector<Variant>(100, Variant(1.0))); }); vf::guarded([&] { p.values(boost::none); }); vf::guarded([&] { p.values(); }); }
         vf::guarded([&] { s.getProperty(99); }); vf::guarded([&] { s.getProperty(HUGE_N); }); vf::guarded([&] { s.createProperty("v", std::vector<Variant>{}); }); vf::guarded([&] { s.createProperty("v2", DataType::Nothing); }); vf::guarded([&] { s.createProperty("v3", DataType::Opaque); }); vf::guarded([&] { s.inheritedProperties(); }); vf::guarded([&] { s.link(s); s.inheritedProperties(); s.findRelated(); }); });
     add("Variant edge cases", [](File &) { Variant a; vf::guarded([&] { a.get<std::string>(); }); vf::guarded([&] { a.get<double>(); }); Variant b("x"); vf::guarded([&] { b.get<int32_t>(); }); Variant c{std::string()}; c.get<std::string>(); Variant d((const char *)""); Variant e = d; e.swap(a); swap(a, b); (void)(a == b); a.set(nix::none); a.set("", 0); std::ostringstream o; o << a << b << c; });
+    add("entities with very long names: by index, enumeration, id, name, find", [](File &f) {
+        for (Block b : f.blocks()) { vf::guarded([&] { f.getBlock(b.id()); f.getBlock(b.name()); f.hasBlock(b.id()); });
+            for (ndsize_t i = 0; i < b.dataArrayCount() + 1; i++) vf::guarded([&] { DataArray a = b.getDataArray(i); if (a) { a.name(); b.getDataArray(a.id()); b.hasDataArray(a.name()); a.dimensions(); } });
+            for (ndsize_t i = 0; i < b.tagCount() + 1; i++) vf::guarded([&] { Tag t = b.getTag(i); if (t) { t.references(); b.getTag(t.id()); } });
+            vf::guarded([&] { for (Source s : b.findSources()) { s.name(); s.sources(); } }); vf::guarded([&] { b.dataArrays(util::NameFilter<DataArray>(std::string(129, 'a'))); }); }
+        for (Section s : f.findSections()) vf::guarded([&] { s.name(); s.properties(); s.sections(); for (ndsize_t i = 0; i < s.propertyCount(); i++) s.getProperty(i).name(); }); });
     add("NDSize index and swap edge cases", [](File &) { NDSize a({1, 2}), b({7}); const NDSize c({3, 4, 5});
         vf::guarded([&] { (void)a[(size_t)-1]; }); vf::guarded([&] { (void)c[(size_t)-1]; }); vf::guarded([&] { (void)c[3]; }); vf::guarded([&] { NDSize e; (void)e[0]; }); vf::guarded([&] { NDSize e; (void)e[(size_t)-1]; });
         vf::guarded([&] { NDSize x({7}), y({1, 2, 3}); x.swap(y); (void)x[2]; (void)y[0]; x.nelms(); y.nelms(); NDSize k(y), l(x); (void)(k == y); vf::guarded([&] { (void)y[2]; }); });
